@@ -387,6 +387,13 @@ def objective():
         nonscalar = {"min": lambda A: A["m"].min(A["x"]), "max": lambda A: A["m"].max(A["x"]),
                      "min slice": lambda A: A["m"].min(A["x"][0:2]), "min affine": lambda A: A["m"].min(2 * A["x"] + 1),
                      "min convex": lambda A: A["m"].min(abs(A["x"]))}
+        # blocks of a 2-D variable: the number of ENTRIES decides, not the length of the first axis
+        subs = {"X[0:1, :]": lambda X: X[0:1, :], "X[:, 0:1]": lambda X: X[:, 0:1], "X[0]": lambda X: X[0], "X[:, 1]": lambda X: X[:, 1],
+                "X[1:2, 0:2]": lambda X: X[1:2, 0:2], "X": lambda X: X, "X[0:1, :].T": lambda X: X[0:1, :].T, "X[[0], :]": lambda X: X[[0], :]}
+        if "X" in pair()[0]:
+            for sn, sf in subs.items():
+                nonscalar[f"min {sn}"] = lambda A, sf=sf: A["m"].min(sf(A["X"]))
+                nonscalar[f"max {sn}"] = lambda A, sf=sf: A["m"].max(sf(A["X"]))
         if front == "ro":
             nonscalar["minmax"] = lambda A: A["m"].minmax(A["x"] * A["z"], A["z"] <= 1)
             nonscalar["maxmin"] = lambda A: A["m"].maxmin(A["x"] * A["z"], A["z"] <= 1)
